@@ -453,7 +453,7 @@ def parseWithServerName (x : Ext) (id server : Str) : Res Str :=
     | .panic => .panic
   else if !localpartCompat id then .err
   else
-    let full := 64 :: id ++ 58 :: server
+    let full := 64 :: (id ++ 58 :: server)
     match userIdValidate x full with
     | .ok () => .ok full
     | .err => .err
@@ -463,7 +463,7 @@ def parseWithServerName (x : Ext) (id server : Str) : Res Str :=
 def keyFromParts (alg name : Str) : Str := alg ++ 58 :: name
 
 /-- `UserId::new`, `RoomId::new`, `EventId::new`: sigil, random alphanumeric localpart, server. -/
-def newId (sigil : Nat) (lp server : Str) : Str := sigil :: lp ++ 58 :: server
+def newId (sigil : Nat) (lp server : Str) : Str := sigil :: (lp ++ 58 :: server)
 
 /-! ## One entry point per identifier type -/
 
